@@ -1,7 +1,7 @@
 ---- MODULE MC_Limits ----
 (* C20 for VOL and CLM creation: which size vectors must be refused because a quantity does not fit its on-disk  *)
 (* field.  Sizes are Wide numbers (16-bit limbs); the decision is made over the naturals they denote.            *)
-EXTENDS Wide, TLC, Json, FiniteSets
+EXTENDS Wide, Bytes, TLC, Json, FiniteSets
 VARIABLES done
 Two31m1 == << 65535, 32767, 0, 0 >>
 OneGiB == << 0, 16384, 0, 0 >>
@@ -24,9 +24,22 @@ Emit(kind, ks, refused) == PrintT("S|" \o ToJson([id |-> <<kind, ks>>, steps |->
                                                      expect |-> IF refused THEN "refuse" ELSE "accept"] >>]))
 Vectors == { <<"m31">>, <<"m32m1">>, <<"m32">>, <<"m31m1">>, <<"s5", "m31">>, <<"m31", "s0">>, <<"m31m1", "m31m1">>, <<"m31m1", "m31m1", "s5">>,
              <<"g1", "g1", "g1", "g1", "s5">>, <<"g1", "g1", "g1", "s5">>, <<"m31m1", "g1", "g1", "s0">>, <<"s5", "s0">> }
+\* ---- size-prefixed containers: the count must fit the prefix type, otherwise the write is refused and nothing is emitted ----
+PrefixTypes == << [name |-> "u8", max |-> 255, w |-> 1], [name |-> "i8", max |-> 127, w |-> 1],
+                  [name |-> "u16", max |-> 65535, w |-> 2], [name |-> "i16", max |-> 32767, w |-> 2], [name |-> "u32", max |-> 2147483647, w |-> 4], [name |-> "i32", max |-> 2147483647, w |-> 4] >>
+PrefixCounts(T) == IF T.w = 4 THEN {0, 1, 255, 256, 65536, 70001} ELSE {0, 1, T.max - 1, T.max, T.max + 1, T.max + 2, 2 * T.max + 1, 2 * T.max + 2}
+PrefixFits(T, n) == n <= T.max
+LEw(n, w) == IF w = 1 THEN <<n % 256>> ELSE IF w = 2 THEN LE16(n) ELSE LE32(n)
+PrefixCase(T, n) == [op |-> "prefixed_write", prefix |-> T.name, count |-> n, expect |-> IF PrefixFits(T, n) THEN "ok" ELSE "refuse",
+                     segs |-> IF PrefixFits(T, n) THEN << Lit(LEw(n, T.w)), Blob(7, 0, n) >> ELSE <<>>]
+NoWrappedPrefix == \A i \in 1..Len(PrefixTypes) : \A n \in PrefixCounts(PrefixTypes[i]) :
+                     PrefixFits(PrefixTypes[i], n) => n < (IF PrefixTypes[i].w = 1 THEN 256 ELSE IF PrefixTypes[i].w = 2 THEN 65536 ELSE 2147483647) 
 Init == done = FALSE
 Next == /\ ~done /\ done' = TRUE
         /\ \A ks \in Vectors : Emit("vol_limit", ks, VolRefused(Vec(ks)))
         /\ \A ks \in Vectors : Emit("clm_limit", ks, ClmRefused(Vec(ks)))
+        /\ Assert(NoWrappedPrefix, "an accepted count would not fit its prefix")
+        /\ \A i \in 1..Len(PrefixTypes) : \A n \in PrefixCounts(PrefixTypes[i]) :
+             PrintT("S|" \o ToJson([id |-> <<"prefix", PrefixTypes[i].name, n>>, steps |-> << PrefixCase(PrefixTypes[i], n) >>]))
 Spec == Init /\ [][Next]_done
 ====
